@@ -169,7 +169,7 @@ func rgbBounds(by, bcb, bcr float64) [3]float64 {
 
 // ---------- contents ----------
 
-var contents8 = []string{"gnoise", "noise", "checker", "black", "white", "extremes", "hramp", "vramp", "const", "checker2", "smooth", "colchecker"}
+var contents8 = []string{"basis", "basis2", "rowstripes", "colstripes", "gnoise", "noise", "checker", "black", "white", "extremes", "hramp", "vramp", "const", "checker2", "smooth", "colchecker"}
 
 // gen8 makes w*h*comps samples of the named content class.
 func gen8(rng *Rand, class string, w, h, comps int) []byte {
@@ -179,11 +179,14 @@ func gen8(rng *Rand, class string, w, h, comps int) []byte {
 		cv[c] = byte(rng.Intn(256))
 	}
 	ph := rng.Intn(2)
+	sp := newSparse(rng, 255)
 	for y := 0; y < h; y++ {
 		for x := 0; x < w; x++ {
 			for c := 0; c < comps; c++ {
 				var v int
 				switch class {
+				case "basis", "basis2", "rowstripes", "colstripes":
+					v = sp.at(class, x, y, c, w)
 				case "noise":
 					v = rng.Intn(256)
 				case "gnoise": // graded noise: amplitude grows from 0 (top left) to full (bottom right)
@@ -223,17 +226,20 @@ func gen8(rng *Rand, class string, w, h, comps int) []byte {
 	return p
 }
 
-var contents12 = []string{"gnoise", "noise", "checker", "black", "white", "extremes", "hramp", "vramp", "const", "smooth", "noise8"}
+var contents12 = []string{"basis", "basis2", "rowstripes", "colstripes", "gnoise", "noise", "checker", "black", "white", "extremes", "hramp", "vramp", "const", "smooth", "noise8"}
 
 // gen12 makes w*h 12-bit samples (little endian, 2 bytes each).
 func gen12(rng *Rand, class string, w, h int) []byte {
 	p := make([]byte, w*h*2)
 	cv := rng.Intn(4096)
 	ph := rng.Intn(2)
+	sp := newSparse(rng, 4095)
 	for y := 0; y < h; y++ {
 		for x := 0; x < w; x++ {
 			var v int
 			switch class {
+			case "basis", "basis2", "rowstripes", "colstripes":
+				v = sp.at(class, x, y, 0, w)
 			case "noise":
 				v = rng.Intn(4096)
 			case "noise8":
@@ -321,4 +327,76 @@ func clipBytes(b []byte) string {
 		return Hex(b[:4096]) + fmt.Sprintf("...(%d bytes)", len(b))
 	}
 	return Hex(b)
+}
+
+// ---------- sparse-coefficient contents ----------
+// "basis":      per 8x8 block, DC + amplitude * ONE DCT basis function (u,v); block b of the
+//
+//	image (row-major) gets natural index k = (b + shift) mod 64, so any 64
+//	consecutive blocks (e.g. a 64x64 image) cover DC-only and all 63 AC positions,
+//	among them the pure-row (0,v) and pure-column (u,0) ones and v or u = 7.
+//	For RGB every channel has its own shift (so chroma carries patterns too).
+//
+// "basis2":     DC + one basis function by block index + a second one that is alternately
+//
+//	(0,7) "row 7 only", (7,0) "column 7 only", (0,1), (1,0): the pairs
+//	rows {1,7}, columns {1,7}, rows {7} + anything, ...
+//
+// "rowstripes": every column identical, rows follow a random 8-periodic profile
+//
+//	(only the coefficients (0,v) are non-zero); "colstripes": the transpose.
+//
+// Amplitudes run from a few levels to clipping; chosen per image from the seed.
+type sparse struct {
+	max     int
+	dc      [3]int
+	amp     [3]float64
+	shift   [3]int
+	profile [3][8]int
+}
+
+func newSparse(rng *Rand, max int) *sparse {
+	s := &sparse{max: max}
+	amps := []float64{0.012, 0.047, 0.16, 0.35, 0.5, 0.7, 1.0} // of full scale; the last ones clip
+	for c := 0; c < 3; c++ {
+		s.dc[c] = max/4 + rng.Intn(max/2+1)
+		if rng.Intn(3) == 0 {
+			s.dc[c] = (max + 1) / 2
+		}
+		s.amp[c] = amps[rng.Intn(len(amps))] * float64(max)
+		s.shift[c] = rng.Intn(64)
+		for i := range s.profile[c] {
+			s.profile[c][i] = rng.Intn(max + 1)
+		}
+	}
+	return s
+}
+
+func (s *sparse) at(class string, x, y, c, w int) int {
+	c %= 3
+	switch class {
+	case "rowstripes":
+		return s.profile[c][y%8]
+	case "colstripes":
+		return s.profile[c][x%8]
+	}
+	b := (y/8)*((w+7)/8) + x/8
+	k := (b + s.shift[c]) % 64
+	u, v := k%8, k/8
+	f := float64(s.dc[c])
+	if k != 0 {
+		f += s.amp[c] * refCos[u][x%8] * refCos[v][y%8]
+	}
+	if class == "basis2" {
+		k2 := [4][2]int{{0, 7}, {7, 0}, {0, 1}, {1, 0}}[b%4]
+		f += 0.6 * s.amp[c] * refCos[k2[0]][x%8] * refCos[k2[1]][y%8]
+	}
+	r := int(f + 0.5)
+	if f < 0 {
+		r = 0
+	}
+	if r > s.max {
+		r = s.max
+	}
+	return r
 }
